@@ -1,6 +1,8 @@
 package props
 
 import (
+	"time"
+	"io"
 	"bytes"
 	"fmt"
 	"math/rand"
@@ -165,6 +167,45 @@ func C09(c *core.Ctx) {
 							map[string]interface{}{"kind": kind, "len": L, "fault_after": n, "ack": ack})
 					}
 				}
+				// faults of the net.Error family (timeouts, temporary errors), met again by a caller that retries:
+				// whatever the client does, it must not report success unless the connection took every byte once, in order
+				for k := 0; k < c.N(4, 40) && L > 3; k++ {
+					n1 := r.Intn(L - 1)
+					o := mkSend(cf, sizedMessage(r, kind, sz, chunk), n1)
+					o.werr = []error{netFault{timeout: true, temporary: true}, netFault{temporary: true}, netFault{timeout: true}, io.ErrShortWrite}[r.Intn(4)]
+					switch r.Intn(3) {
+					case 0:
+						o.wmore = []int{}
+					case 1:
+						o.wmore = []int{r.Intn(L - n1)}
+					default:
+						o.wmore = []int{r.Intn(4), 0, 1 + r.Intn(3)}
+					}
+					if ack {
+						o.resp = ackBytes(o.chunk)
+					}
+					note := fmt.Sprintf("%s len=%d: %v after %d bytes, then %v", kind, L, o.werr, n1, o.wmore)
+					c.Hist("typed / repeated write fault")
+					rs := runClientOps(cf, []cop{{kind: "C", dialOK: true, wfault: -1}, o})
+					c.Eval()
+					var got []byte
+					for _, e := range rs[1].events {
+						if strings.HasPrefix(e, "w:") {
+							f := strings.Split(e, ":")
+							b := unhx(f[2])
+							var n int
+							fmt.Sscan(f[3], &n)
+							got = append(got, b[:n]...)
+						}
+					}
+					replay := map[string]interface{}{"kind": kind, "len": L, "fault": note, "accepted": trunc(hx(got), 200), "encoding": trunc(hx(o.enc), 200), "ret": rs[1].ret}
+					if rs[1].ret == "ok" && !bytes.Equal(got, o.enc) {
+						c.Violation("judge-go", "c09-false-success", "Send returned nil but the connection did not take exactly the encoding ("+note+")", replay)
+					}
+					if !bytes.HasPrefix(o.enc, got) {
+						c.Violation("judge-go", "c09-reordered", "the bytes the connection accepted are not a prefix of the encoding: lost, repeated or reordered ("+note+")", replay)
+					}
+				}
 				// no fault: success, everything accepted
 				o := mkSend(cf, sizedMessage(r, kind, sz, chunk), -1)
 				if ack {
@@ -190,7 +231,7 @@ func C09(c *core.Ctx) {
 			}
 		}
 		// unencodable records: error, nothing on the wire, the next message correctly framed
-		for _, before := range []int{0, 10, 2030, 2049, 3000, 4090, 5000} {
+		for _, before := range []int{0, 10, 2030, 2049, 3000, 4090, 5000, 1200000} {
 			for depth := 0; depth < 3; depth++ {
 				for _, ext := range []bool{false, true} {
 					var bad protocol.ChunkEncoder
@@ -240,6 +281,7 @@ func C09(c *core.Ctx) {
 			}
 		}
 	}
+	c09BigBatch(c)
 	c09SendBuf(c)
 	c09ws(c)
 }
@@ -296,6 +338,50 @@ func c09SendBuf(c *core.Ctx) {
 		obs := strings.Join(writes, ",")
 		for _, pol := range []string{"lifo", "fifo", "never"} {
 			c.Corr("c09-sendbuf", "sendbuf_seq", []string{pol, strings.Join(reqs, ";")}, obs)
+		}
+	}
+}
+
+// c09BigBatch: a Forward batch whose size estimate is in the megabytes, one of whose records cannot be
+// encoded (at the start, in the middle, at the end): error, nothing on the connection, the next message framed.
+func c09BigBatch(c *core.Ctx) {
+	r := c.Rng
+	for _, n := range []int{4, 1300} {
+		for _, where := range []int{0, n / 2, n} {
+			cf := ccfg{host: []byte("h")}
+			var el protocol.EntryList
+			for i := 0; i <= n; i++ {
+				var rec interface{} = map[string]interface{}{"log": strings.Repeat("x", 1000)}
+				if i == where {
+					rec = map[string]interface{}{"bad": make(chan int)}
+				}
+				el = append(el, protocol.EntryExt{Timestamp: protocol.EventTime{Time: time.Unix(int64(i), 0)}, Record: rec})
+			}
+			bad := mkSend(cf, protocol.NewForwardMessage("batch", el), -1)
+			bad.enc = nil
+			good := mkSend(cf, sizedMessage(r, "message", 20, ""), -1)
+			rs := runClientOps(cf, []cop{{kind: "C", dialOK: true, wfault: -1}, bad, good})
+			c.Eval()
+			c.Hist(fmt.Sprintf("unencodable record at %d of a batch of %d entries", where, n+1))
+			var wire []byte
+			for _, x := range rs[1:] {
+				for _, e := range x.events {
+					if strings.HasPrefix(e, "w:") {
+						f := strings.Split(e, ":")
+						b := unhx(f[2])
+						var k int
+						fmt.Sscan(f[3], &k)
+						wire = append(wire, b[:k]...)
+					}
+				}
+			}
+			replay := map[string]interface{}{"entries": n + 1, "unencodable_at": where, "bytes_on_connection": len(wire), "first_bytes": trunc(hx(wire), 100)}
+			if rs[1].ret == "ok" {
+				c.Violation("judge-go", "c09-unencodable-ok", "Send of a batch holding an unencodable record returned nil", replay)
+			}
+			if !bytes.Equal(wire, good.enc) {
+				c.Violation("judge-go", "c09-unencodable-torn", fmt.Sprintf("after a batch of %d entries that failed to encode the connection holds %d bytes that are not the next message's %d", n+1, len(wire), len(good.enc)), replay)
+			}
 		}
 	}
 }
